@@ -332,6 +332,18 @@ def edits(base):
             s = variant()
             s.msgs[1].id = s.msgs[0].id
             yield "duplicate-id:message", str(s.msgs[0].id), "reject", s
+    # ---- values the header fillers must write have to fit the header members
+    hd = layout.RDim(res.public(hn), hn)
+    for member, setter in (("templateId", lambda s, v: setattr(s.msgs[0], "id", v)), ("schemaId", lambda s, v: setattr(s, "id", v)),
+                           ("version", lambda s, v: setattr(s, "version", v)), ("blockLength", lambda s, v: setattr(s.msgs[0], "block_length", v))):
+        sl = hd.slot(member)
+        rng = type_range(sl.prim) if sl else None
+        if not rng or psize(sl.prim) == 8:
+            continue
+        for v, verdict in ((rng[1] + 1, "reject"), (rng[1], "accept")):
+            s = variant()
+            setter(s, v)
+            yield "header-value-not-representable:%s" % member, "%s=%d" % (member, v), verdict, s
     for pk, verdict in (("class", "reject"), ("a.b", "accept-or-reject"), ("1x", "reject"), ("ok_name", "accept")):
         s = variant()
         s.package = pk
